@@ -206,6 +206,16 @@ def check_retrain(run, case):
     try:
         if not resA.ok:
             run.ev('trainings_not_completed'); run.inconc('training did not complete'); return
+        # three-tool history: a copy of the ruleset is made with the project's own edit_rules.py --copy (no filter) before the original is trained again;
+        # the copy is a ruleset of its own and must mean afterwards what it meant when it was made
+        kept, kept_before = name + '_kept', None
+        try:
+            import edit_rules as er, io, contextlib
+            with contextlib.redirect_stdout(io.StringIO()):
+                er.edit_rules({'rule': name, 'copy': kept, 'rules_dir': os.path.join(repo.scratch(), 'Rules'), 'min_length': 0, 'max_length': 0, 'terminal_set': False})
+            kept_before = c06.tree_digest(os.path.join(repo.scratch(), 'Rules', kept))
+        except Exception:
+            kept_before = None
         data = trainlists.render_plain([(p, k) for p, k in second['items']], second['encoding'])
         resB = trainer.train(data, path, encoding=second['encoding'], coverage=second['coverage'], ngram=second['ngram'], alphabet_size=second['alphabet'],
                              max_len=second['max_len'])
@@ -216,10 +226,22 @@ def check_retrain(run, case):
             have = sorted(os.listdir(os.path.join(path, directory)))
             if sorted(names) != have:
                 run.violation(f'after re-training an existing rule directory config.ini lists {sorted(names)} for {directory}/ but the directory holds {have}', case); return
+        if kept_before is not None:
+            kept_after = c06.tree_digest(os.path.join(repo.scratch(), 'Rules', kept))
+            if kept_after != kept_before:
+                diff = sorted(k for k in set(kept_before) | set(kept_after) if kept_before.get(k) != kept_after.get(k))
+                run.violation(f'a copy made with edit_rules.py --copy changed when the ruleset it was copied from was trained again: {diff[:6]}', case, observed=diff); return
+            kdisk = oracles.Disk(os.path.join(repo.scratch(), 'Rules', kept))
+            for letter, (directory, names) in kdisk.filelists.items():
+                have = sorted(os.listdir(os.path.join(repo.scratch(), 'Rules', kept, directory)))
+                if sorted(names) != have:
+                    run.violation(f'copy of a ruleset, after its original was re-trained: config.ini lists {sorted(names)} for {directory}/ but the directory holds {have}', case); return
+            run.ev('copies_checked_after_retraining_the_original')
         run.ev('retrainings_checked')
         run.case(h(['retrain', first['items'], second['items']]))
     finally:
         repo.drop_rules(name)
+        repo.drop_rules(name + '_kept')
 
 def run(run, rng):
     run.required_events = ['trainings', 'disk_vs_tally', 'guesser_loader_compared', 'scorer_loader_compared', 'omen_loaders_compared']
